@@ -24,7 +24,7 @@ PLANS = {
                 ("tagged-cli-sim", "tagged", 3, 0, 0, 1500, "plain"), ("tagged-hap-cli-sim", "tagged", 3, 0, 0, 2000, "hap"), ("tagged-hap3-cli-sim", "tagged", 3, 0, 0, 2000, "hap3")],
     },
     "thorough": {
-        "C01": [("valid", "valid", 2, 8, 0, 12000), ("perturbed", "perturb", 1, 4, 2, 6000), ("valid-sim", "valid", 5, 4, 0, 8000),
+        "C01": [("valid", "valid", 2, 8, 0, 12000), ("perturbed", "perturb", 1, 4, 1, 6000), ("perturbed2-sim", "perturb", 1, 3, 2, 4000), ("valid-sim", "valid", 5, 4, 0, 8000),
                 ("valid-sim", "valid", 4, 3, 0, 2400, "plain", [(100, 1)]), ("valid-cli-sim", "valid", 3, 6, 0, 5000), ("perturbed-cli-sim", "perturb", 2, 3, 1, 3000),
                 ("valid-hap-cli-sim", "valid", 3, 4, 0, 4000, "hap"), ("tagged-hap3-cli-sim", "tagged", 3, 1, 0, 5000, "hap3"), ("tagperturb-hap-cli-sim", "tagperturb", 3, 1, 1, 5000, "hap")],
         "C02": [("valid", "valid", 2, 10, 0, 12000), ("valid-sim", "valid", 5, 4, 0, 12000), ("valid-sim", "valid", 4, 3, 0, 2400, "plain", [(100, 1)]),
